@@ -26,7 +26,7 @@ T = {
             "faults = OSError from the destination's put/copy; crash = process death at a Python-visible fs event (no power loss)"),
     "C05": ("exploration", "§4 C05",
             "lost-bytes accounting of the workspace against the cache before/after non-forced checkout; shadow model of the link table",
-            "Random prior workspaces (user files cached or not, edits, replacements, deletions, kind swaps) x targets x store class x link type x relink x prompt absent/declining; any workspace byte string that disappears must be intact in the cache; link clean-up histories checked against a shadow model.",
+            "Random prior workspaces (user files cached or not, edits, replacements, deletions, kind swaps) x targets x store class x link type x relink x prompt absent / declining / agreeing to the first question only (what was agreed to may go, nothing else) x read-only store handle; any workspace byte string that disappears must be intact in the cache; link clean-up histories checked against a shadow model.",
             "user edits to linked files are done by replace-by-rename (in-place writes through links are the user corrupting the cache)"),
     "C06": ("exploration", "§4 C06",
             "before/after store listing vs set-difference model, return value, dry-run and read-only refusals",
@@ -39,10 +39,10 @@ T = {
     "C08": ("exploration", "§4 C08",
             "reported changes vs flat key-by-key reference + self-diff / swap / conservation relations over random and enumerated index pairs",
             "Random pairs of nested indexes in implicit/explicit/hashed styles under every allowed option combination, compared with a flat reference written from the statement; rename pairing checked for validity and maximality.",
-            "shallow=True only checked for classification/no-duplicates (visibility is not specified); shortcut mode checked on hash-consistent indexes"),
+            "shallow=True checked for classification, no duplicates and that every changed one-sided key with no hashed entry above it on its own side is reported (what else it leaves out is not judged); shortcut mode checked on hash-consistent indexes"),
     "C09": ("exploration", "§4 C09",
             "workspace walk vs target after compare+apply; second compare against a freshly built target must be empty",
-            "Random (prior, target) tree pairs incl. file<->directory swaps at depth, nested deletions, exec bits, explicit vs lazily loaded targets, link types, delete on/off, unavailable sources.",
+            "Random (prior, target) tree pairs incl. file<->directory swaps at depth, nested deletions, exec bits, explicit vs lazily loaded targets (also without entries for intermediate directories, for every link type), link types and link-type lists whose first type is unavailable, delete on/off, unavailable sources and entries without hash.",
             "workspace index built with index.build + md5 as dvc does"),
     "C10": ("exploration", "§4 C10",
             "workspace walk + lstat/readlink/inode checks, zero-mutation audit on the second checkout, cache byte snapshot, link record recomputation",
